@@ -224,6 +224,104 @@ def kernel_level(ctx, rng, names):
         if r != e:
             dis.append(Disagreement('c05.model', 'model:_find_interval', f'_find_interval index trace differs from the model: {ln} model={r} real={e}',
                                     {'line': ln}, False))
+    dis += index_traces(ctx, rng)
+    return dis
+
+
+def index_traces(ctx, rng):
+    """recorded index traces of the Python-source kernels vs the Lean index models"""
+    from .rec import Rec
+    from .common import parse_ints
+    import pybaselines.classification as C
+    import pybaselines._spline_utils as su
+    dis = []
+    tab = K.kernel_table()
+    dm = tab['_directional_min_moving_avg'][1].py_func
+    rs = tab['_rolling_std'][1].py_func
+    deboor = tab['_de_boor'][1].py_func
+    btb = tab['_numba_btb_bty'][1].py_func
+    lines, exp, kinds = [], [], []
+    for L in list(range(1, 12)) + [25]:
+        for hw in (0, 1, 2, 3, 5, 8, 30):
+            log = []
+            y = Rec(rng.normal(size=L + int(rng.integers(0, 3))), 'y', log)
+            try:
+                dm(y, L, hw)
+            except IndexError as e:
+                dis.append(Disagreement('c05.oob', 'oob:_directional_min_moving_avg:direct', f'_directional_min_moving_avg(L={L}, hw={hw}): {e}',
+                                        {'kind': 'dirmin', 'L': L, 'hw': hw}, True))
+                continue
+            reads = [i[2][0] for i in log if i[0] == 'r']
+            writes = [i[2][0] for i in log if i[0] == 'w']
+            lines.append(f'c05.dirmin {L} {hw}')
+            exp.append((reads, writes))
+            kinds.append('dirmin')
+            ctx.case(('dirmin', L, hw), nontrivial=True)
+            ctx.count('kernel:_directional_min_moving_avg')
+    for N in range(1, 9):
+        for hw in range(0, 6):
+            numY = N + 2 * hw
+            log = []
+            d = Rec(rng.normal(size=numY), 'd', log)
+
+            class NP:
+                def __getattr__(self, k):
+                    return getattr(np, k)
+
+                def zeros(self, n, *a, **k):
+                    return Rec(np.zeros(n), 'sq', log)
+            old = C.np
+            C.np = NP()
+            try:
+                with np.errstate(all='ignore'):
+                    rs(d, hw, 1)
+            except IndexError as e:
+                dis.append(Disagreement('c05.oob', 'oob:_rolling_std:direct', f'_rolling_std(N={N}+2*{hw}, hw={hw}): {e}',
+                                        {'kind': 'rstd', 'N': N, 'hw': hw}, True))
+                continue
+            finally:
+                C.np = old
+            dr = sorted(i[2][0] for i in log if i[1] == 'd')
+            sq = sorted(i[2][0] for i in log if i[1] == 'sq')
+            lines.append(f'c05.rstd {numY} {hw}')
+            exp.append((dr, sq))
+            kinds.append('rstd')
+            ctx.case(('rstd', N, hw), nontrivial=True)
+            ctx.count('kernel:_rolling_std')
+    for deg in range(0, 6):
+        for left in (deg, deg + 1, deg + 4):
+            nb = left + 1 + int(rng.integers(0, 3))
+            log = []
+            knots = Rec(np.sort(rng.normal(size=nb + deg + 1)), 'k', log)
+            work = Rec(np.zeros(2 * (deg + 1)), 'w', log)
+            xv = float(knots[left]) * 0.5 + float(knots[left + 1]) * 0.5
+            log.clear()
+            try:
+                deboor(knots, xv, deg, left, work)
+            except IndexError as e:
+                dis.append(Disagreement('c05.oob', 'oob:_de_boor:direct', f'_de_boor(deg={deg}, left={left}): {e}', {'kind': 'deboor'}, True))
+                continue
+            kr = [i[2][0] for i in log if i[1] == 'k']
+            wr = sorted(set(i[2][0] for i in log if i[1] == 'w'))
+            lines.append(f'c12.deboor_idx {deg} {left}')
+            exp.append((kr, wr))
+            kinds.append('deboor')
+            ctx.case(('deboor', deg, left), nontrivial=deg > 0)
+            ctx.count('kernel:_de_boor')
+    res = drive(lines)
+    ctx.traces += len(lines)
+    for ln, r, e, kind in zip(lines, res, exp, kinds):
+        if kind == 'dirmin':
+            ok = parse_ints(r) == e[0] and set(e[1]) <= set(e[0])
+        elif kind == 'rstd':
+            a, b = r.split('|')
+            ok = sorted(parse_ints(a)) == e[0] and sorted(parse_ints(b)) == e[1]
+        else:
+            a, b = r.split('|')
+            ok = parse_ints(a) == e[0] and sorted(set(parse_ints(b))) == e[1]
+        if not ok:
+            dis.append(Disagreement('c05.model', f'model:{kind}', f'index trace of the kernel differs from the Lean index model: {ln} model={r[:80]} real={str(e)[:80]}',
+                                    {'line': ln}, False))
     return dis
 
 
